@@ -379,6 +379,7 @@ thread_local! {
 /// substitution-focused lane: the start term is a `let` whose body mentions the bound variable plainly and unit-decorated, the rule
 /// set always contains the substitution rule and the unit rules (which merge the variable's class with composite classes)
 pub static SUBST_FOCUS: std::sync::atomic::AtomicBool = std::sync::atomic::AtomicBool::new(false);
+pub static SWAPPED_FOCUS: std::sync::atomic::AtomicBool = std::sync::atomic::AtomicBool::new(false);
 
 pub fn run_case(rng: &mut Rng, bad: bool) -> CaseOut {
     let mut out = CaseOut::default();
@@ -402,7 +403,7 @@ pub fn run_case(rng: &mut Rng, bad: bool) -> CaseOut {
     }
     // swapped-pair family: one two-parameter subterm next to its copy with the two parameters exchanged, under the operators the
     // repeated-variable rules (factor, let-intro, add-self) match: `T[p,q] + T[q,p]` is an instance of `?a + ?a` only if T is symmetric
-    let swapped_pair = !subst_focus && directed.is_none() && rng.chance(1, 5);
+    let swapped_pair = !subst_focus && directed.is_none() && (rng.chance(1, 5) || SWAPPED_FOCUS.load(std::sync::atomic::Ordering::Relaxed));
     if swapped_pair {
         let mut inner = String::new();
         for _ in 0..10 {
@@ -576,6 +577,7 @@ pub fn run_case(rng: &mut Rng, bad: bool) -> CaseOut {
 pub fn run(args: &Args, rep: &mut Rep) {
     let bad = args.param_u("bad", 0) == 1;
     SUBST_FOCUS.store(args.param_u("subst", 0) == 1, std::sync::atomic::Ordering::Relaxed);
+    SWAPPED_FOCUS.store(args.param_u("swapped", 0) == 1, std::sync::atomic::Ordering::Relaxed);
     // directed reproduction: term=... rules=a,b model=M1|M2 iters=n runner=0|1
     let dir = args.params.get("term").map(|t| (t.clone(), args.param_s("rules", "").split(',').map(|x| x.to_string()).collect::<Vec<_>>(), args.param_s("model", "M1"), args.param_u("iters", 2) as usize, args.param_u("runner", 0) == 1));
     drive(args, rep, move |rng, _| {
